@@ -15,6 +15,8 @@ type nsClass struct {
 	Methods []string `json:"methods"`          // "name:body expression"
 	Static  []string `json:"static,omitempty"`
 	Inner   *nsClass `json:"inner,omitempty"` // a class nested in this one (its parent is a class of the group)
+	// Rest: the class has `def entry(*args)` returning args (called from outside with typed arguments)
+	Rest bool `json:"rest,omitempty"`
 }
 
 type nsCase struct {
@@ -38,7 +40,14 @@ func (n *nsCase) render(wrap bool, decoy bool) (src string, groupLines int) {
 					for _, m := range cl.Methods {
 						fmt.Fprintf(&sb, "  def %s\n    \"zzdecoy\"\n  end\n", strings.SplitN(m, ":", 2)[0])
 					}
+					if cl.Rest {
+						sb.WriteString("  def entry(*args)\n    args\n  end\n")
+					}
 					sb.WriteString("end\n")
+					if cl.Rest {
+						// the decoy is used too: its calls must not reach the group's class
+						fmt.Fprintf(&sb, "zzd = %s.new\nzzd.entry(:decoy, :other)\n", cl.Name)
+					}
 				}
 			}
 		case "other-module":
@@ -66,6 +75,9 @@ func (n *nsCase) render(wrap bool, decoy bool) (src string, groupLines int) {
 		for _, m := range cl.Static {
 			p := strings.SplitN(m, ":", 2)
 			fmt.Fprintf(&sb, "%s  def self.%s\n%s    %s\n%s  end\n", ind, p[0], ind, p[1], ind)
+		}
+		if cl.Rest {
+			fmt.Fprintf(&sb, "%s  def entry(*args)\n%s    args\n%s  end\n", ind, ind, ind)
 		}
 		if in := cl.Inner; in != nil {
 			head := "class " + in.Name
@@ -277,6 +289,14 @@ func genNsCase(r *RNG) *nsCase {
 		for k := 0; k < nm; k++ {
 			cl.Methods = append(cl.Methods, fmt.Sprintf("m%d_%d:%s", i, k, Pick(r, rets)))
 		}
+		// every class of the group answers `common`, each with another class
+		cl.Methods = append(cl.Methods, fmt.Sprintf("common:%s", rets[i%len(rets)]))
+		if i == 0 && r.Bool() {
+			cl.Rest = true
+			feature = append(feature, "rest-parameter")
+			// ... also called without a receiver from inside the class
+			cl.Methods = append(cl.Methods, "via_entry:entry(:a, :b)")
+		}
 		if r.Chance(1, 3) {
 			cl.Static = append(cl.Static, fmt.Sprintf("s%d:%s", i, Pick(r, rets)))
 			feature = append(feature, "static")
@@ -351,6 +371,11 @@ func genNsCase(r *RNG) *nsCase {
 		}
 		n.Uses = append(n.Uses, v+".zznothing")
 	}
+	// a receiver that is a union of two classes of the group
+	n.Uses = append(n.Uses, "zzflag = true", fmt.Sprintf("zzu = zzflag ? {{%s}}.new : {{%s}}.new", n.Classes[0].Name, n.Classes[1].Name), "dbtp zzu.common", "zzu.zznothing")
+	if n.Classes[0].Rest {
+		n.Uses = append(n.Uses, "dbtp v0.entry(1.5, 2.5)", "dbtp v0.entry(\"s\")", "zzfirst = v0.entry(1.5).first", "dbtp zzfirst")
+	}
 	switch r.Intn(3) {
 	case 1:
 		n.Decoy = "toplevel"
@@ -404,7 +429,7 @@ func init() {
 			return judgeNs(c, s.BlackBox(), &n)
 		},
 		Run: func(c *CheckCtx) {
-			c.rule = "generated class groups (2-4 classes, superclasses inside the group, instance and class methods; names drawn to collide and not collide with configured short names) followed by uses (new, own/inherited/class method calls probed with dbtp, one undefined call per class); each group is analysed at top level, wrapped in one or two modules with outside references qualified, and next to a same-named decoy class (top level or another module) with different methods and parents; outputs are compared after removing the group's qualifiers and rebasing rows onto use-statement indexes; --extends --class= is compared for every class. distinct_nontrivial = distinct (group, modules, decoy, mode) whose top-level run printed records"
+			c.rule = "generated class groups (2-4 classes, superclasses inside the group, instance and class methods; names drawn to collide and not collide with configured short names) followed by uses (new, own/inherited/class method calls probed with dbtp, one undefined call per class, a call on a union of two classes of the group that both define the method, calls of a rest-parameter method with typed arguments); each group is analysed at top level, wrapped in one or two modules with outside references qualified, and next to a same-named decoy class (top level or another module) with different methods and parents; outputs are compared after removing the group's qualifiers and rebasing rows onto use-statement indexes; --extends --class= is compared for every class. distinct_nontrivial = distinct (group, modules, decoy, mode) whose top-level run printed records"
 			c.assumptions = []string{"variants in which a run crashes or hangs are skipped (C01/C02)"}
 			r := c.RNG.Sub(27)
 			n := c.N(250, 6000)
